@@ -82,7 +82,7 @@ def _worker(msg):
     if kind == "args":
         import pycfmodel
         m = pycfmodel.parse(copy.deepcopy(x["template"]))
-        return tplgen.model_args(m, x["extra"])
+        return tplgen.model_args(m, x["extra"], x["template"])
     raise ValueError(kind)
 
 
